@@ -135,6 +135,19 @@ def _guard(c: Ctx, fname, arg):
     return arg
 
 
+def gen_signed_int(c: Ctx):
+    v = ["num", c.pick(["0", "1", "1", "2", "3", "10"])]
+    return ["neg", v] if c.p(0.35) else v
+
+
+def gen_int_cond(c: Ctx, vars_, depth):
+    """Conditional(cond, k1, k2) with integer literals, possibly nested (sign switches, indicators)"""
+    b = gen_signed_int(c)
+    if c.p(0.2):
+        b = ["cond", gen_rel(c, vars_, 1), gen_signed_int(c), gen_signed_int(c)]
+    return ["cond", gen_bool_expr(c, vars_, min(max(depth - 1, 1), 3)), gen_signed_int(c), b]
+
+
 def gen_num_expr(c: Ctx, vars_, depth: int, in_binop: bool = False):
     """numeric expression"""
     cfg = c.cfg
@@ -156,8 +169,17 @@ def gen_num_expr(c: Ctx, vars_, depth: int, in_binop: bool = False):
     if hit(cfg.p_bin):
         if c.p(cfg.p_intdiv):
             # integer literal quotient / exponent shapes
-            k = c.i(0, 3)
+            k = c.i(0, 5)
             q = ["bin", "/", gen_posint(c), gen_posint(c)]
+            if k >= 4:
+                # an integer valued conditional / relational sharing a quotient with integer literals
+                ic = gen_int_cond(c, vars_, 2)
+                if vars_ and c.p(0.3):
+                    lhs = c.pick(vars_)
+                    ic = ["b2n", ["rel", c.pick(["Lt", "Gt", "Le", "Ge"]), ["var", lhs], gen_num_expr(c, [v for v in vars_ if v != lhs], 1)]]
+                if k == 4:
+                    return ["bin", "/", ic, gen_posint(c)]
+                return ["bin", "/", ["bin", "*", gen_posint(c), ic], gen_posint(c)]
             sub = gen_num_expr(c, vars_, depth - 1)
             if k == 0:
                 return ["bin", "*", q, sub]
@@ -194,6 +216,9 @@ def gen_num_expr(c: Ctx, vars_, depth: int, in_binop: bool = False):
             return ["call", "Mod", a, b]
         return ["call", f, _guard(c, f, gen_num_expr(c, vars_, depth - 1))]
     if hit(cfg.p_cond):
+        if c.p(0.35):
+            # switch / indicator conditionals with (signed) integer literal values
+            return gen_int_cond(c, vars_, depth)
         return ["cond", gen_bool_expr(c, vars_, min(depth - 1, 3)), gen_num_expr(c, vars_, depth - 1), gen_num_expr(c, vars_, depth - 1)]
     if vars_ and hit(cfg.p_ccond):
         lhs = c.pick(vars_)
@@ -207,6 +232,12 @@ def gen_num_expr(c: Ctx, vars_, depth: int, in_binop: bool = False):
 
 def gen_rel(c: Ctx, vars_, depth):
     ops = ["Lt", "Gt", "Le", "Ge"] + (["Eq"] if c.cfg.allow_eq else [])
+    if vars_ and c.p(0.3):
+        # threshold comparison of a variable with a (possibly negative) literal
+        lit = gen_num(c)
+        if c.p(0.5):
+            lit = ["neg", lit]
+        return ["rel", c.pick(ops), ["var", c.pick(vars_)], lit]
     return ["rel", c.pick(ops), gen_num_expr(c, vars_, depth), gen_num_expr(c, vars_, depth)]
 
 
@@ -404,7 +435,37 @@ def value_strategy(model, nonneg=False):
     return st.one_of(st.sampled_from(pool), grid)
 
 
+def boundary_pairs(model):
+    """(variable, value) pairs that put a comparison `var <op> literal` exactly on its boundary"""
+    out = []
+    for a in model["assigns"]:
+        for n in X.walk(a["expr"]):
+            if n[0] == "rel":
+                for lhs, rhs in ((n[2], n[3]), (n[3], n[2])):
+                    if lhs[0] == "var":
+                        try:
+                            if rhs[0] == "num":
+                                out.append((lhs[1], float(rhs[1])))
+                            elif rhs[0] == "neg" and rhs[1][0] == "num":
+                                out.append((lhs[1], -float(rhs[1][1])))
+                        except ValueError:
+                            pass
+    return out
+
+
 def draw_point(draw, model, nonneg=False, t_strategy=None):
+    pt = _draw_point(draw, model, nonneg, t_strategy)
+    bp = boundary_pairs(model)
+    if bp and draw(st.integers(0, 3)) == 0:
+        var, val = draw(st.sampled_from(bp))
+        if var in pt["states"]:
+            pt["states"][var] = val
+        elif var in pt["params"]:
+            pt["params"][var] = val
+    return pt
+
+
+def _draw_point(draw, model, nonneg=False, t_strategy=None):
     vs = value_strategy(model, nonneg)
     dp = default_point(model)
     use_def = draw(st.integers(0, 3)) == 0
